@@ -15,6 +15,7 @@ from lib.fastsim import compile_dut, FastSim, MigenSim, HarnessError
 from lib.addrmap import AddrMap
 
 ID = "C06"
+REQUIRED_CLASSES = ['colbits>10', '2 ranks', 'bank_byte_alignment', 'exhaustive', 'dynamic']      # classes that must occur in every run (else harness error: vacuous generator)
 LEVEL = "exploration"
 RULE = ("case = geometry (memtype/burst alignment, bankbits 1-4, rowbits, colbits 8-12, ranks 1-2, bank_byte_alignment) ; per geometry EVERY port address when the "
         "address space is <= 2^17 (else 20 000 generated addresses incl. all single-carry neighbours) is routed through the real crossbar and slicer; non-trivial = geometry has "
